@@ -92,6 +92,24 @@ def recv_root(f, operand, depth=10, seen=None):
     return out
 
 
+def _same_value(f, operand, local, depth=6):
+    """The operand is `local`, or a reference / copy of it."""
+    if operand[0] not in ("c", "m") or depth < 0:
+        return False
+    l = operand[1][0]
+    if l == local:
+        return True
+    ds = panics._def_sites(f).get(l, [])
+    if len(ds) != 1 or ds[0][0] != "st":
+        return False
+    rv = ds[0][2][2]
+    if rv[0] in ("ref", "addr"):
+        return _same_value(f, ["c", rv[1]], local, depth - 1)
+    if rv[0] == "use":
+        return _same_value(f, rv[1], local, depth - 1)
+    return False
+
+
 def mutation_points(f, L=None):
     """(block after which self is changed, description, fields, line, fallible)"""
     pts = []
@@ -129,6 +147,15 @@ def mutation_points(f, L=None):
                 # removing something absent changes nothing: effective on the Some edge when the result is matched
                 sws, returned = protocol.result_switches(f, t[3][0])
                 somes = [arms[1] for sb, kind, arms, oth in sws if 1 in arms and kind == "disc"]
+                # `.ok_or(..)?` / `?` on the Option: the Continue edge is the one where something was removed
+                somes += [arms[0] for sb, kind, arms, oth in sws if 0 in arms and kind == "cf"]
+                # `.is_some()` / `.is_none()` on the removed value
+                for b2, t2 in f.calls():
+                    c2 = callee(t2)
+                    if c2.endswith(("Option::<T>::is_some", "Option::<T>::is_none")) and t2[2] and t2[2][0][0] in ("c", "m"):
+                        if _same_value(f, t2[2][0], t[3][0]):
+                            for sb, m in protocol.bool_edges(f, b2):
+                                somes.append(m[c2.endswith("is_some")])
                 if somes:
                     for sm in somes:
                         pts.append((sm, c.split("::")[-1] + "(found) on " + ",".join(sorted(recv)), recv, t[1].get("l"), False, b))
@@ -388,6 +415,12 @@ def binding(chk, facts):
                             ls = state.setdefault("order", [])
                             return tt.I(1 if (ub if len(ls) == 0 and not ls.append("unbound") else ex) else 0)
                         return AtomOracle.call(self, cal, args, term, interp)
+
+                    def res_discriminant(self, v, adt):
+                        # loops that fill the two collections are not part of the decision: zero iterations
+                        if v[0] == "res" and v[1].endswith("::next") and adt.endswith("Option"):
+                            return 0
+                        return AtomOracle.res_discriminant(self, v, adt)
                 try:
                     ret, trace = tt.Interp(f, O()).run(arg_syms(f))
                 except tt.Undecided as e:
@@ -399,12 +432,24 @@ def binding(chk, facts):
                 chk.ob(rule, "check_binding:unbound_empty=%s,extra_empty=%s" % (ub, ex), got == want,
                        "check_binding returns %s; required %s (Ok iff exactly the template's slots are bound)" % (got, want), where=f.where(), fn=f.name,
                        sample={"unbound_empty": ub, "extra_empty": ex, "result": got})
-        # the two filtered collections look in opposite directions
-        cs = []
-        for g in [f] + facts.closures_of(f.name):
-            cs += [callee(t) for _, t in g.calls()]
-        both = sum(1 for c in cs if c.endswith("::contains_key")) >= 1 and sum(1 for c in cs if c.endswith(("::contains", "::any", "::all", "::find", "::contains_key"))) >= 2
-        chk.ob(rule, "check_binding:both-directions", both, "check_binding tests membership in both directions (slots missing from values, values not in slots): %s" % both,
+        # both directions are looked at: unbound slots can only be found by enumerating the template's slots, extra values only by
+        # enumerating the given values (whatever the membership test looks like: contains_key, any, a nested loop, a set difference)
+        L = shape.Labels(f, None, None, param_labels={1: {"template"}, 2: {"values"}})
+        ITER = ("::iter", "::into_iter", "::keys", "::into_keys", "::iter_mut", "::drain")
+        it_src = set()
+        for b, t in f.calls():
+            if callee(t).endswith(ITER) and t[2]:
+                it_src |= L.operand_labels(t[2][0]) & {"template", "values"}
+        for g in facts.closures_of(f.name):
+            for b, t in g.calls():
+                c = callee(t)
+                if c.endswith(ITER) and ("HashMap" in c or "hash_map" in c):
+                    it_src.add("values")
+                elif c.endswith(ITER):
+                    it_src.add("template")
+        both = {"template", "values"} <= it_src
+        chk.ob(rule, "check_binding:both-directions", both,
+               "check_binding enumerates both the template's slots (to find unbound ones) and the given values (to find extra ones): iterates over %s" % sorted(it_src),
                where=f.where(), fn=f.name)
         chk.floor(rule, "rows", n, 4)
     for nm in ("link", "try_as_policy"):
